@@ -1036,6 +1036,45 @@ def rule_r10(prog, res):
               'exception events (C13-R11)', 'C13', c13.rule_r11, prog, Result)
 
 
+# ------------------------------------------------------------------ R11
+def rule_r11(prog, res):
+    res.rule('R11', 'NullServer closes the context of a call that ends in a '
+             'fault: the step that raises out_error to the caller is inside '
+             'a handler (or finally) that closes the context')
+    m = prog.module('spyne.server.null')
+    f = m.functions.get('_FunctionCall.__call__')
+    if f is None:
+        raise AnalysisError('_FunctionCall.__call__', 'not found')
+    calls = [c for c in calls_in(f.node) if call_name(c) == '_cb_sync']
+    res.floor('R11', 'result callbacks in _FunctionCall.__call__', len(calls),
+              1)
+    for c in calls:
+        closes = False
+        p_ = c
+        while p_ is not None and p_ is not f.node:
+            par = getattr(p_, '_parent', None)
+            if isinstance(par, ast.Try) and p_ in par.body:
+                bodies = [h.body for h in par.handlers if h.type is None or
+                          unparse(h.type) in ('Exception', 'BaseException',
+                                              'Fault')] + [par.finalbody]
+                for b in bodies:
+                    if any(isinstance(x, ast.Call) and call_name(x) == 'close'
+                           for st in b for x in ast.walk(st)):
+                        closes = True
+            p_ = par
+        where = '%s:%d' % (m.relpath, c.lineno)
+        res.ob('R11', where, 'the raising step %s' % (
+            'is covered by a close()' if closes else 'skips the close()'),
+            'ok' if closes else 'VIOLATED')
+        if not closes:
+            res.finding('R11', '_FunctionCall.__call__|fault-leaves-context-'
+                        'open', where, '_cb_sync re-raises out_error before '
+                        'the trailing p_ctx.close() is reached and nothing '
+                        'closes the context on that path: '
+                        'method_context_closed never fires for a call that '
+                        'ends in a fault')
+
+
 def run(prog, res, tier):
     res.run_rule(rule_r1, prog, res, tier)
     res.run_rule(rule_r2, prog, res)
@@ -1047,6 +1086,7 @@ def run(prog, res, tier):
     res.run_rule(rule_r8, prog, res)
     res.run_rule(rule_r9, prog, res)
     res.run_rule(rule_r10, prog, res)
+    res.run_rule(rule_r11, prog, res)
 
 
 _A = 'spyne/application.py'
@@ -1059,6 +1099,13 @@ _D = 'spyne/descriptor.py'
 _O = 'spyne/util/oset.py'
 
 MUTANTS = [
+    Mutant('null-fault-leaves-context-open', 'R11', 'fire',
+           'spyne/server/null.py',
+           in_func('_FunctionCall.__call__',
+                   "                        p_ctx.close()\n"
+                   "                        raise\n",
+                   "                        raise\n"),
+           'fault-leaves-context-open'),
     Mutant('evmgrs-spelling-dropped', 'R10', 'fire', 'spyne/decorator.py',
            in_func('_get_event_managers',
                    "    elif _evmgrs is not None:\n        _event_managers = "
